@@ -1,4 +1,5 @@
 (* Props/C04.v — property C04: every supplied scenario runs, nothing else runs, the run terminates. *)
+From CV Require Proofs.ReviewP.
 From CV Require Proofs.SchedP10.
 From CV Require Import Model.Base Model.Events Model.Sched Proofs.BaseP Proofs.SchedP Proofs.SchedP2 Proofs.SchedP3 Proofs.SchedP4 Proofs.SchedP8.
 
@@ -74,3 +75,17 @@ Example C04_turns_nonvacuous :
   | None => (false, false, 0%nat)
   end = (true, true, 5%nat).
 Proof. vm_compute. reflexivity. Qed.
+
+
+(* ---------- "WITHOUT FAIL-FAST" as a hypothesis on the configuration (review finding M3) ----------
+   `C04_every_supplied_scenario_starts` assumes `flow s <> Break`, an internal-state fact. The bridge: *)
+Theorem C04_without_fail_fast_the_flow_never_breaks :
+  forall c ls s tr, cf_fail_fast c = false -> exec c ls = Some (s, tr) -> flow s <> Break.
+Proof. exact ReviewP.no_fail_fast_no_break. Qed.
+Print Assumptions C04_without_fail_fast_the_flow_never_breaks.
+
+Theorem C04_without_fail_fast_every_supplied_scenario_starts :
+  forall c ls s tr, cf_fail_fast c = false -> exec c ls = Some (s, tr) -> pc s = Done ->
+    forall x, In x (inserted_ids ls) -> In x (started_ids tr).
+Proof. exact ReviewP.all_supplied_started_no_ff. Qed.
+Print Assumptions C04_without_fail_fast_every_supplied_scenario_starts.
